@@ -95,6 +95,7 @@ class World:  # pylint: disable=too-many-instance-attributes
             class Lowered(Container):  # pylint: disable=too-few-public-methods
                 _IN_SQL_MAX_LENGTH = lowered[0]
                 _MAX_CHUNK_ITERATE_LENGTH = lowered[1]
+                _CHUNKSIZE = lowered[2] if len(lowered) > 2 else Container._CHUNKSIZE
 
             Container = Lowered
         self.Container = Container  # pylint: disable=invalid-name
